@@ -34,6 +34,9 @@ def check(run):
                     'and vrank (Spearman)')
     for cfg in configs(run):
         F = run.facts(cfg)
+        # helpers this property stands on (rule sets owned by other properties, see common.deps)
+        from common import deps as _deps
+        _deps(run, F, 'isnone', 'agg_gates', 'casts')
         # the bounds and the ranks come from the order statistics of C12: their comparator,
         # index and interpolation rules are part of "the documented bounds of the valid data"
         C12.comparators(run, F)
@@ -42,6 +45,9 @@ def check(run):
         winsorize(run, F)
         spearman(run, F)
         half_life(run, F)
+    # every container the generic code can be instantiated with hands out its elements in logical order
+    from common import dep_backends as _dep_backends
+    _dep_backends(run)
     return run.finish(
         'other',
         'Winsorize: each of the three arms returns iter_cast::<f64>().vclip(min, max) (or the '
